@@ -369,7 +369,16 @@ class QosWorld:
             self.connected = False
             self.tx._closing = True
             self.pending.clear()
-            loop.call_soon(self.proto.connection_lost, L["exc"].TransportError("harness: connection lost"))
+            kind = self.params.get("disc_err", "transport")
+            if kind == "transport":
+                err = L["exc"].TransportError("harness: connection lost")
+            elif kind == "serial":  # what serial_asyncio hands over after an I/O failure
+                import serial
+
+                err = serial.SerialException("harness: device reports readiness to read but returned no data")
+            else:
+                err = None  # clean close
+            loop.call_soon(self.proto.connection_lost, err)
         elif k == "pause":
             self.paused = True
             self.proto.pause_writing()
